@@ -435,6 +435,7 @@ var decoderDocs = []string{
 	`1`, `1 2`, ` 1 , 2`, `[1,2]`, `[1 , 2 , 3 ]`, `{"a":1}`, `{"a":[1,{"b":null}],"c":"d"}`, `[]`, `{}`, `[[]]`, `"s" "t"`, `1  2   3`, `[1,2] [3]`, `{"a":1,"a":2}`, `{"a":1,"z":2}`,
 	`[1,]`, `[1 2]`, `{"a" 1}`, `{"a":}`, `{1:2}`, `[`, `]`, `nul`, `tru e`, `1.5e`, `-`, `"\ud800"`, "\"\xff\"", `1e999`, `[1e999]`, `{"a":1}x`, ` `, ``, `null`, `[null, true]`, `{"B":[1,"x"],"a":5}`,
 	`12345678901234567890`, `0.1 -0 1E2`, "[1,\n 2]", `{"a":{"b":{"c":[]}}}`,
+	"[\r\n\t1,\r\n 2\r]\r\n", "{\"a\"\r:\r1\r,\t\"b\"\n:[\r]}\r", "1\r2\r\n3\t4", "\r[\r]\r", "[1\r,2]", "{\"a\":1\r}",
 }
 
 // ---- part 4: Encoder op sequences ----
@@ -521,7 +522,8 @@ func numberFamily() (n int64, msgs []string) {
 			msgs = append(msgs, fmt.Sprintf("Marshal of Number(%q): encoding/json (%s, %v), v1 (%s, %v)", l, x, e1, y, e2))
 		}
 	}
-	texts := []string{`{"N":1}`, `{"N":"1"}`, `{"N":1.50,"P":2e3,"M":{"a":-0,"b":1E400}}`, `{"N":null,"P":null}`, `{"N":"abc"}`, `{"N":true}`, `{"S":"12"}`, `{"S":12}`, `{"S":"x"}`, `{"N":01}`, `{"N":[1]}`, `{"M":{"a":"7"}}`, `{"N":""}`, `{"S":""}`}
+	texts := []string{`{"N":1}`, `{"N":"1"}`, `{"N":1.50,"P":2e3,"M":{"a":-0,"b":1E400}}`, `{"N":null,"P":null}`, `{"N":"abc"}`, `{"N":true}`, `{"S":"12"}`, `{"S":12}`, `{"S":"x"}`, `{"N":01}`, `{"N":[1]}`, `{"M":{"a":"7"}}`, `{"N":""}`, `{"S":""}`,
+		`{"N":"\u0031"}`, `{"M":{"a":"\u0037","b":"1\u002e5"}}`, `{"N":"1\u002E5e\u002b2"}`, `{"P":"\u002d0"}`, `{"N":"\u0031x"}`, `{"N":"1\n"}`, `{"N":"\u0022"}`, `{"S":"\u0031"}`, `{"N":"\/1"}`}
 	for _, t := range texts {
 		n++
 		var a stdNum
